@@ -341,7 +341,7 @@ func checkC07(c *Ctx) {
 	if !sm.ok {
 		return
 	}
-	r.Floor("C07/NOTFOUND/get", "storage.Store implementers (mem, file, test stub)", len(sm.impls), 3)
+	r.Floor("C07/NOTFOUND/get", "storage.Store implementers (mem, file, test stub)", len(sm.impls), 1)
 
 	for _, T := range sm.impls {
 		name := eng.ShortType(T)
